@@ -61,6 +61,7 @@ type World struct {
 	JMode   string
 	InTx    bool
 	Legacy  bool // the file was created with the legacy schema format (as SQLite 3.3 - 3.7.9 did by default)
+	counterPatched bool
 	InWAL   bool // the file is in WAL mode right now (a rollback-journal reader must refuse it)
 	Commits int
 	// OnCommit is called after every refresh of the reference snapshot.
@@ -802,7 +803,11 @@ func (w *World) Step() {
 		}
 		w.Refresh()
 	case 17: // the 32-bit change counter is put just below its wrap-around; the next commits take it through zero
-		if !w.InWAL {
+		// (once per history: setting the counter back a second time would give two different
+		// states the same counter value - something no SQLite writer does, and exactly what
+		// every SQLite page cache, sqlittle's included, relies on)
+		if !w.InWAL && !w.counterPatched {
+			w.counterPatched = true
 			if b, err := os.ReadFile(w.Path); err == nil && len(b) >= 100 {
 				f, err := os.OpenFile(w.Path, os.O_WRONLY, 0)
 				if err == nil {
